@@ -212,6 +212,12 @@ func (c *Decoder) decodeGotoDestionationStatement() (*ast.GotoDestinationStateme
 }
 
 func (c *Decoder) decodeIfStatement() (*ast.IfStatement, error) {
+	// else-if frames nest through this function itself, they count for the nesting limit as well
+	if err := c.enter(); err != nil {
+		return nil, errors.WithStack(err)
+	}
+	defer c.leave()
+
 	var err error
 	stmt := &ast.IfStatement{
 		Another: []*ast.IfStatement{},
